@@ -51,6 +51,10 @@ func loopDir(idx ssa.Value) int {
 					return step(x, phi)
 				}
 			}
+			// a constant offset of an induction variable (nodes[i-1]) moves in the same direction
+			if _, isC := constInt(x.Y); isC && (x.Op == token.ADD || x.Op == token.SUB) {
+				return loopDir(phi)
+			}
 		}
 	}
 	return 0
